@@ -330,6 +330,8 @@ class Policy:
                     return ["ValueError"]
                 return EXT_RAISES.get(ev.ext, [])
             if ev.attrname in ("pop", "remove"):
+                if ev.attrname == "pop" and len(ev.args) >= 2:
+                    return []  # pop(key, default) never raises
                 return {"pop": ["KeyError"], "remove": ["ValueError", "KeyError"]}[ev.attrname]
             if ev.fterm is not None and ev.fterm[0] in ("var", "param", "item", "elem", "call"):
                 return ["AnyException"]  # a callback value (parameter, stored or looked-up callable)
@@ -1100,6 +1102,12 @@ class Engine:
             if v[0] in ("tuple", "list") and len(v[1]) == n and not any(e[0] == "starred" for e in v[1]):
                 parts = list(v[1])
             else:
+                if not any(isinstance(x, ast.Starred) for x in tg.elts):
+                    # unpacking a value of unknown length into n names may raise ValueError
+                    e = self._event("unpack", tg, fi, depth, s)
+                    e.value = v
+                    e.attrname = str(n)
+                    self._raise_point(e, s, ch, tg)
                 parts = [("item", v, const(i)) for i in range(n)]
             for sub, p in zip(tg.elts, parts):
                 if isinstance(sub, ast.Starred):
@@ -1337,14 +1345,24 @@ class Engine:
         if isinstance(node, ast.Starred):
             return ("starred", ev(node.value))
         if isinstance(node, ast.JoinedStr):
+            parts = []
+            opaque = False
             for v in node.values:
                 if isinstance(v, ast.FormattedValue):
                     # evaluate for events but tolerate unbound names inside log strings
                     try:
-                        ev(v.value)
+                        x = ev(v.value)
                     except AnalysisError:
-                        pass
-            return ("fstr",)
+                        opaque = True
+                        continue
+                    if v.format_spec is not None or v.conversion not in (-1, 115):
+                        opaque = True
+                    parts.append(("fmt", x))
+                elif isinstance(v, ast.Constant):
+                    parts.append(const(v.value))
+            if opaque:
+                return ("fstr",)
+            return ("fstr", tuple(parts))
         if isinstance(node, ast.FormattedValue):
             return ("fstr",)
         if isinstance(node, ast.Await):
@@ -1875,6 +1893,35 @@ class Engine:
             e.cb = cb[2][0]
             e.cbargs = tuple(cb[2][1:]) + tuple(e.cbargs)
             e.cbkwargs = tuple(cb[3]) + tuple(e.cbkwargs)
+
+    def deferred_lambda_calls(self, cb, final_env, fi: FuncInfo):
+        """A lambda handed to call_soon/call_later runs *after* the function that created it has gone on:
+        its free variables see the values they have then (Python closures bind late).  Evaluate the
+        lambda's body with defaults bound at creation and free names looked up in `final_env` (the
+        environment at the end of the enumerated path).  Returns the call events of the body, or None
+        when `cb` is no lambda closure."""
+        tgt = self._closures.get(cb[2]) if cb and cb[0] == "closure" else None
+        if tgt is None or not (isinstance(tgt[0], tuple) and tgt[0][0] == "lambda"):
+            return None
+        lam, lfi = tgt[0][1], tgt[0][2]
+        cenv = tgt[1]
+        st = _State()
+        st.env = {k: v for k, v in cenv.items() if k not in ("$handlers",)}
+        st.env.update({k: v for k, v in final_env.items() if not k.startswith("$")})
+        a = lam.args
+        names = [x.arg for x in a.args]
+        for nm, d in zip(names[len(names) - len(a.defaults):], a.defaults):
+            try:
+                cst = _State()
+                cst.env = dict(cenv)
+                st.env[nm] = self._eval(d, cst, lfi, 99, _Chooser())
+            except (_RaiseSignal, AnalysisError):
+                st.env[nm] = ("unknown", ("default", nm))
+        try:
+            self._eval(lam.body, st, lfi, 1, _Chooser())
+        except _RaiseSignal:
+            pass
+        return [e for e in st.events if e.kind == "call"]
 
     def closure_target(self, cb):
         """('closure', qual, id) -> (FuncInfo | ('lambda', node, fi), env)"""
